@@ -461,7 +461,11 @@ def check_option_tables(ctx, db):
         try:
             d = pyfront.const_value(node)
         except ValueError:
-            raise AnalysisError('option dictionary %s is not a literal' % dname)
+            # a table that is computed at import time: fold the module-level statements (side-effect-free subset)
+            from .. import pyfold
+            d = pyfold.module_constants(db.files[rel]).get(dname)
+            if not isinstance(d, dict) or not all(isinstance(k_, str) and isinstance(v_, int) for k_, v_ in d.items()):
+                raise AnalysisError('option dictionary %s is neither a literal nor computed from literals by foldable module-level code' % dname)
         anchor((struct, member) in me, 'enum type of struct %s member %s' % (struct, member))
         cvals = me[(struct, member)]
         cmap = {}
